@@ -11,6 +11,7 @@ import (
 	"sort"
 	"strings"
 	"sync"
+	"sync/atomic"
 	"time"
 
 	"github.com/spq/pkappa2/internal/index"
@@ -47,24 +48,19 @@ func vNewCtl(free bool) *vCtl {
 	return c
 }
 
-var (
-	vCurCtlMu sync.Mutex
-	vCurCtl   *vCtl
-)
+// The current controller is read by the hook in the job goroutines.  An atomic pointer, not a mutex: a mutex that the
+// job goroutine unlocks and the harness locks later would order the job's accesses before everything the harness does
+// next and hide data races from the race detector (C20).  An atomic load only synchronises with the store it reads.
+var vCurCtl atomic.Pointer[vCtl]
 
 var vHookOnce sync.Once
 
 func vInstallCtl(c *vCtl) {
-	vCurCtlMu.Lock()
-	vCurCtl = c
-	vCurCtlMu.Unlock()
+	vCurCtl.Store(c)
 	// the hook variable itself is written once, before any manager goroutine exists
 	vHookOnce.Do(func() {
 		VerifHook = func(kind string, phase int, args ...any) {
-			vCurCtlMu.Lock()
-			ctl := vCurCtl
-			vCurCtlMu.Unlock()
-			if ctl != nil {
+			if ctl := vCurCtl.Load(); ctl != nil {
 				ctl.hook(kind, phase, args)
 			}
 		}
@@ -73,12 +69,7 @@ func vInstallCtl(c *vCtl) {
 
 func (c *vCtl) hook(kind string, phase int, args []any) {
 	if c.free {
-		c.mu.Lock()
-		if phase == -1 {
-			c.nStarted[kind]++
-		}
-		c.mu.Unlock()
-		return
+		return // free-running mode: no gate and no synchronisation of any kind (see vCurCtl)
 	}
 	switch phase {
 	case -1:
